@@ -4,6 +4,9 @@ import (
 	"context"
 	"encoding/json"
 	"fmt"
+	"go.6river.tech/mmmbbb/grpc/pubsubpb"
+	"google.golang.org/grpc/metadata"
+	"google.golang.org/protobuf/proto"
 	"math/rand"
 	"os"
 	"strings"
@@ -40,6 +43,7 @@ type c11Action struct {
 type c11Case struct {
 	Name    string      `json:"name"`
 	Ordered bool        `json:"ordered,omitempty"`
+	Grpc    bool        `json:"grpc,omitempty"` // drive the gRPC StreamingPull handler (services) instead of actions.MessageStreamer
 	Actions []c11Action `json:"actions"`
 }
 
@@ -66,7 +70,9 @@ type scriptConn struct {
 	order  []uuid.UUID         // outstanding ids, oldest first
 	limit  actions.FlowControl // the limits in force
 	bad    string              // first bound violation seen at a Send
+	dup    string              // a message handed out again while it was outstanding and its lease had not lapsed
 	ctl    *Ctl
+	greqs  chan *pubsubpb.StreamingPullRequest // gRPC mode: what the client sends
 }
 
 func (c *scriptConn) Close() error { c.once.Do(func() { close(c.closed) }); return nil }
@@ -81,12 +87,57 @@ func (c *scriptConn) Receive(ctx context.Context) (*actions.MessageStreamRequest
 	}
 }
 func (c *scriptConn) Send(ctx context.Context, d *actions.SubscriptionMessageDelivery) error {
+	c.record(d.ID, len(d.Payload))
+	return nil
+}
+
+// grpcStream is the server side of a StreamingPull call whose client is the test
+type grpcStream struct {
+	c   *scriptConn
+	ctx context.Context
+}
+
+func (g *grpcStream) SetHeader(metadata.MD) error  { return nil }
+func (g *grpcStream) SendHeader(metadata.MD) error { return nil }
+func (g *grpcStream) SetTrailer(metadata.MD)       {}
+func (g *grpcStream) Context() context.Context     { return g.ctx }
+func (g *grpcStream) SendMsg(m interface{}) error  { return g.Send(m.(*pubsubpb.StreamingPullResponse)) }
+func (g *grpcStream) RecvMsg(m interface{}) error {
+	r, err := g.Recv()
+	if err != nil {
+		return err
+	}
+	proto.Merge(m.(proto.Message), r)
+	return nil
+}
+func (g *grpcStream) Recv() (*pubsubpb.StreamingPullRequest, error) {
+	select {
+	case r := <-g.c.greqs:
+		return r, nil
+	case <-g.ctx.Done():
+		return nil, g.ctx.Err()
+	}
+}
+func (g *grpcStream) Send(resp *pubsubpb.StreamingPullResponse) error {
+	for _, rm := range resp.ReceivedMessages {
+		id, err := uuid.Parse(rm.AckId)
+		if err != nil {
+			return err
+		}
+		g.c.record(id, len(rm.Message.Data))
+	}
+	return nil
+}
+
+func (c *scriptConn) record(id uuid.UUID, sz int) {
 	c.mu.Lock()
 	defer c.mu.Unlock()
-	sz := len(d.Payload)
+	d := struct{ ID uuid.UUID }{id}
 	c.sent = append(c.sent, sentMsg{d.ID, sz})
 	if _, dup := c.out[d.ID]; !dup {
 		c.order = append(c.order, d.ID)
+	} else if c.dup == "" {
+		c.dup = fmt.Sprintf("delivery %s was handed out again on the stream while it was still outstanding (no nack, no lapse of its lease)", d.ID)
 	}
 	c.out[d.ID] = sz
 	c.ctl.Mark("send " + d.ID.String())
@@ -101,7 +152,6 @@ func (c *scriptConn) Send(ctx context.Context, d *actions.SubscriptionMessageDel
 			c.bad = fmt.Sprintf("%d bytes outstanding in %d messages after this send, max outstanding bytes is %d", b, n, c.limit.MaxBytes)
 		}
 	}
-	return nil
 }
 
 // settle removes ids from the client's view of what is outstanding (called when the client decides
@@ -163,10 +213,30 @@ func c11Run(t *testing.T, seed int64, cs c11Case, known map[string]bool) *c11Res
 		defer cancel()
 		w.Ctl.SpinGuard("stream", 200)
 		w.Ctl.StartLog()
-		ms := &actions.MessageStreamer{Client: w.Client, SubscriptionID: &subID, SubscriptionName: SubName("s")}
 		fin := make(chan error, 1)
-		go func() { fin <- ms.Go(ctx, conn) }()
+		if cs.Grpc {
+			conn.greqs = make(chan *pubsubpb.StreamingPullRequest)
+			gs := &grpcStream{c: conn, ctx: ctx}
+			go func() { fin <- w.Api().Sub.StreamingPull(gs) }()
+		} else {
+			ms := &actions.MessageStreamer{Client: w.Client, SubscriptionID: &subID, SubscriptionName: SubName("s")}
+			go func() { fin <- ms.Go(ctx, conn) }()
+		}
 		synctest.Wait()
+		strs := func(ids []uuid.UUID) []string {
+			out := make([]string, len(ids))
+			for i, id := range ids {
+				out[i] = id.String()
+			}
+			return out
+		}
+		rep := func(n int, v int32) []int32 {
+			out := make([]int32, n)
+			for i := range out {
+				out[i] = v
+			}
+			return out
+		}
 		num := map[uuid.UUID]int{} // model numbering of delivery ids
 		idOf := func(id uuid.UUID) int {
 			if n, ok := num[id]; ok {
@@ -236,6 +306,11 @@ func c11Run(t *testing.T, seed int64, cs c11Case, known map[string]bool) *c11Res
 				res.sig = "bound"
 				return false
 			}
+			if conn.dup != "" {
+				res.violation = fmt.Sprintf("after action %d (%s): %s", step, a.K, conn.dup)
+				res.sig = "redelivered-while-leased"
+				return false
+			}
 			// no-stall: a deliverable message that fits the free capacity must not be left unsent
 			n, b := conn.usage()
 			freeM, freeB := conn.limit.MaxMessages-n, conn.limit.MaxBytes-b
@@ -282,6 +357,7 @@ func c11Run(t *testing.T, seed int64, cs c11Case, known map[string]bool) *c11Res
 			}
 			return true
 		}
+		streamOpen := !cs.Grpc
 		for step, a := range cs.Actions {
 			w.Ctl.SpinReset()
 			switch a.K {
@@ -289,7 +365,13 @@ func c11Run(t *testing.T, seed int64, cs c11Case, known map[string]bool) *c11Res
 				conn.mu.Lock()
 				conn.limit = actions.FlowControl{MaxMessages: a.Msgs, MaxBytes: a.Byts}
 				conn.mu.Unlock()
-				conn.reqs <- &actions.MessageStreamRequest{FlowControl: &actions.FlowControl{MaxMessages: a.Msgs, MaxBytes: a.Byts}}
+				if cs.Grpc {
+					// flow control travels in the initial request only
+					conn.greqs <- &pubsubpb.StreamingPullRequest{Subscription: SubName("s"), StreamAckDeadlineSeconds: 10,
+						MaxOutstandingMessages: int64(a.Msgs), MaxOutstandingBytes: int64(a.Byts)}
+				} else {
+					conn.reqs <- &actions.MessageStreamRequest{FlowControl: &actions.FlowControl{MaxMessages: a.Msgs, MaxBytes: a.Byts}}
+				}
 				res.evs = append(res.evs, fmt.Sprintf("fc~%d~%d", a.Msgs, a.Byts), "wake", "loop")
 			case "publish":
 				var msgs []MsgSpec
@@ -300,7 +382,7 @@ func c11Run(t *testing.T, seed int64, cs c11Case, known map[string]bool) *c11Res
 				w2 := *w
 				w2.execInner(Op{K: "publish", Topic: "t", Msgs: msgs}, &Result{T: w.Now()})
 				res.evs = append(res.evs, "spurious", "loop")
-			case "ack", "nack", "delay0", "extack":
+			case "ack", "nack", "delay0", "extack", "extend":
 				conn.mu.Lock()
 				var ids []uuid.UUID
 				for _, i := range a.Pick {
@@ -323,16 +405,38 @@ func c11Run(t *testing.T, seed int64, cs c11Case, known map[string]bool) *c11Res
 						nums = append(nums, fmt.Sprint(idOf(id)))
 					}
 				}
-				conn.settle(u)
+				if a.K != "extend" {
+					conn.settle(u)
+				}
 				switch a.K {
+				case "extend":
+					// a positive deadline only postpones: the messages stay outstanding, nothing is freed
+					if cs.Grpc {
+						conn.greqs <- &pubsubpb.StreamingPullRequest{ModifyDeadlineAckIds: strs(u), ModifyDeadlineSeconds: rep(len(u), 60)}
+					} else {
+						conn.reqs <- &actions.MessageStreamRequest{Delay: u, DelaySeconds: 60}
+					}
+					res.evs = append(res.evs, "spurious", "loop")
 				case "ack":
-					conn.reqs <- &actions.MessageStreamRequest{Ack: u}
+					if cs.Grpc {
+						conn.greqs <- &pubsubpb.StreamingPullRequest{AckIds: strs(u)}
+					} else {
+						conn.reqs <- &actions.MessageStreamRequest{Ack: u}
+					}
 					res.evs = append(res.evs, "s~"+strings.Join(nums, "+"))
 				case "nack":
-					conn.reqs <- &actions.MessageStreamRequest{Nack: u}
+					if cs.Grpc {
+						conn.greqs <- &pubsubpb.StreamingPullRequest{ModifyDeadlineAckIds: strs(u), ModifyDeadlineSeconds: rep(len(u), 0)}
+					} else {
+						conn.reqs <- &actions.MessageStreamRequest{Nack: u}
+					}
 					res.evs = append(res.evs, "s~"+strings.Join(nums, "+"))
 				case "delay0":
-					conn.reqs <- &actions.MessageStreamRequest{Delay: u, DelaySeconds: 0}
+					if cs.Grpc {
+						conn.greqs <- &pubsubpb.StreamingPullRequest{ModifyDeadlineAckIds: strs(u), ModifyDeadlineSeconds: rep(len(u), 0)}
+					} else {
+						conn.reqs <- &actions.MessageStreamRequest{Delay: u, DelaySeconds: 0}
+					}
 					res.evs = append(res.evs, "s~"+strings.Join(nums, "+"))
 				case "extack":
 					ack := actions.NewAckDeliveries(u...)
@@ -346,7 +450,11 @@ func c11Run(t *testing.T, seed int64, cs c11Case, known map[string]bool) *c11Res
 				time.Sleep(time.Duration(a.D))
 			}
 			quiesce()
-			if !check(step, a) {
+			if a.K == "fc" {
+				streamOpen = true
+			}
+			// (a gRPC stream does nothing before its initial request)
+			if streamOpen && !check(step, a) {
 				break
 			}
 		}
@@ -374,12 +482,19 @@ func c11Cases(rng *rand.Rand, n int) []c11Case {
 		{Name: "ordered-stream", Ordered: true, Actions: []c11Action{{K: "fc", Msgs: 3, Byts: 10000}, {K: "publish", Pads: []int{0, 0, 0, 0, 0}}, {K: "ack", Pick: []int{0}}, {K: "ack", Pick: []int{0}}, {K: "extack", Pick: []int{0}}}},
 		{Name: "grow-limits", Actions: []c11Action{{K: "publish", Pads: []int{0, 0, 0, 0, 0, 0}}, {K: "fc", Msgs: 1, Byts: 100}, {K: "fc", Msgs: 3, Byts: 200}, {K: "ack", Pick: []int{0, 1}}, {K: "fc", Msgs: 6, Byts: 1000}}},
 	}
+	// through the gRPC StreamingPull handler: the limits travel in the initial request
+	fixed = append(fixed,
+		c11Case{Name: "grpc-one-at-a-time", Grpc: true, Actions: []c11Action{{K: "fc", Msgs: 1, Byts: 1000}, {K: "publish", Pads: []int{0, 0, 0}}, {K: "extend", Pick: []int{0}}, {K: "ack", Pick: []int{0}}, {K: "nack", Pick: []int{0}}, {K: "ack", Pick: []int{0}}}},
+		c11Case{Name: "grpc-extend-keeps-slot", Grpc: true, Actions: []c11Action{{K: "publish", Pads: []int{0, 0, 0, 0}}, {K: "fc", Msgs: 2, Byts: 10000}, {K: "extend", Pick: []int{0, 1}}, {K: "extend", Pick: []int{1}}, {K: "ack", Pick: []int{0}}}},
+		c11Case{Name: "grpc-bytes", Grpc: true, Actions: []c11Action{{K: "fc", Msgs: 5, Byts: 28}, {K: "publish", Pads: []int{0, 0, 0, 0}}, {K: "ack", Pick: []int{0}}, {K: "extack", Pick: []int{0}}, {K: "nack", Pick: []int{0}}}},
+		c11Case{Name: "extend-keeps-slot", Actions: []c11Action{{K: "fc", Msgs: 2, Byts: 10000}, {K: "publish", Pads: []int{0, 0, 0, 0}}, {K: "extend", Pick: []int{0}}, {K: "ack", Pick: []int{1}}}},
+	)
 	for i := 0; i < n; i++ {
-		c := c11Case{Name: fmt.Sprintf("random-%d", i), Ordered: rng.Intn(5) == 0}
+		c := c11Case{Name: fmt.Sprintf("random-%d", i), Ordered: rng.Intn(5) == 0, Grpc: i%4 == 3}
 		sizes := []int{0, 0, 5, 20, 60, 200}
 		maxM := 1 + rng.Intn(4)
 		maxB := []int{1, 14, 20, 28, 40, 42, 45, 80, 100, 300, 100000}[rng.Intn(11)]
-		if rng.Intn(2) == 0 {
+		if rng.Intn(2) == 0 || c.Grpc {
 			c.Actions = append(c.Actions, c11Action{K: "fc", Msgs: maxM, Byts: maxB})
 		}
 		pub := func() c11Action {
@@ -408,6 +523,11 @@ func c11Cases(rng *rand.Rand, n int) []c11Case {
 			case 8:
 				c.Actions = append(c.Actions, c11Action{K: "extack", Pick: []int{rng.Intn(4)}})
 			case 9:
+				if c.Grpc || rng.Intn(2) == 0 {
+					// a positive deadline: postpones, frees nothing
+					c.Actions = append(c.Actions, c11Action{K: "extend", Pick: []int{rng.Intn(4)}})
+					break
+				}
 				// limits only grow
 				maxM += rng.Intn(2)
 				maxB += rng.Intn(50)
